@@ -47,3 +47,41 @@ Theorem C12_lost_accounting : forall sv isprobe,
   s_lostrqs (abandon_server sv isprobe) = lost_after (s_statsrv sv) (s_lostrqs sv) isprobe.
 Proof. exact abandon_lost. Qed.
 Print Assumptions C12_lost_accounting.
+
+(* ---- connection re-establishment, over every schedule of the connecter's steps and the writer's passes.
+   The connecter's steps on the shared fields are taken from the source on every run (tcp_prog, tls_prog, dtls_prog
+   are the Consts.connecter_ tables); `run prog sch l` is the list of writer passes of schedule sch from link state l
+   (any state: usable or not, flag pending or not); p_resend is the pass's do_resend, p_up whether the state is
+   CONNECTED (a write is refused otherwise), p_gen which connection it is. *)
+From RSP Require Import Connect Connect_proofs.
+
+(* the order the three connecters keep: CONNECTED first, then the flag, then the signal, nothing afterwards *)
+Theorem C12_connecters_keep_the_order :
+  handshake_ok tcp_prog = true /\ handshake_ok tls_prog = true /\ handshake_ok dtls_prog = true.
+Proof. exact connecters_ok. Qed.
+Print Assumptions C12_connecters_keep_the_order.
+
+(* for such a connecter, whenever the writer makes a pass after the signal (which is what the signal causes), some
+   pass re-sends everything with the state CONNECTED and on the connection just established -- whatever passes the
+   writer made while the connection was being set up *)
+Theorem C12_reconnect_handshake : forall prog, handshake_ok prog = true -> forall sch l,
+  wake_after (signalled_at prog) sch = true ->
+  existsb (good_pass (l_gen l + count_up prog)) (run prog sch l) = true.
+Proof. exact handshake. Qed.
+Print Assumptions C12_reconnect_handshake.
+
+(* put together for the code as it is: on that pass every request still outstanding is transmitted on the new
+   connection and keeps its transmission count *)
+Theorem C12_reestablished_resends_all : forall prog, In prog [tcp_prog; tls_prog; dtls_prog] -> forall sch l,
+  wake_after (signalled_at prog) sch = true ->
+  exists p, In p (run prog sch l) /\ p_up p = true /\ p_gen p = (l_gen l + count_up prog)%nat /\
+    forall ri rc tries expiry, 0 < tries -> tries <= rc + 1 ->
+      slot_action ri rc false (p_resend p) (p_now p) tries expiry = (ASend, tries, (p_now p + Z.of_N ri)%Z).
+Proof. exact reestablished_resends_all. Qed.
+Print Assumptions C12_reestablished_resends_all.
+
+(* the hypothesis is not idle: with the flag raised before the connection is up, one schedule suffices *)
+Theorem C12_order_matters : exists sch l, wake_after (length [CDown; CRaise; CUp; CSignal]) sch = true /\
+  existsb (good_pass (l_gen l + 1)) (run [CDown; CRaise; CUp; CSignal] sch l) = false.
+Proof. exact order_matters. Qed.
+Print Assumptions C12_order_matters.
